@@ -9,7 +9,6 @@ HERE = os.path.dirname(os.path.dirname(os.path.abspath(__file__)))
 NA = {
     "C01": "numerical equality of four simulators' floating-point results over all gate sequences; no structural clause is both necessary and not already decided under C14/C02 (hbar), C13 (cutoff>=1), C16 (mode order)",
     "C05": "mutual consistency of five independent numerical probability algorithms over complex inputs; no necessary structural clause visible in the source",
-    "C06": "a bijection between loop-generated arrays and a combinatorial ranking for all (d, cutoff) is an arithmetic fact about runtime values; needs enumeration or loop proofs (other technique families)",
     "C10": "correctness of hand-written gradient formulas is numerical; the only structural facts (arity/name tables) are enforced by TF/JAX at first use in the existing tests",
     "C17": "numerical agreement of two fermionic representations; parity/number conservation are properties of computed matrices",
 }
@@ -30,6 +29,11 @@ CHECKS = {
         text="Decides one necessary clause: the integer types carrying binomial weights in the permanent kernels are wide enough for every multiplicity pattern in the stated range (no signed overflow = no UB and no wrong value there). Equality with the combinatorial definitions is numerical and not decided.",
         note="Trusted: the C++ declaration extractor (clang AST when available, a token-level declaration parser otherwise), LP64 type widths.",
         ref="DESIGN 3/C04, 2/E8b"),
+    "C06": dict(
+        cat="other", technique="twin agreement of scalar and vectorised index/dimension functions by normalised syntax trees + induction on the cutoff with binomial identities decided by sympy + structural relation between the full and the subspace index",
+        text="Decides three structural necessary clauses: (a) each vectorised index / dimension function is its scalar twin applied elementwise; (b) the basis enumeration fills contiguous slices whose lengths sum to the allocated number of rows for all d >= 1 and cutoff >= 0 (induction; both steps are binomial identities decided by sympy); (c) the full index is the sector offset (the dimension formula at cutoff = total particle number) plus the index within the sector, for the bosonic and the fermionic functions. That the ranking formula is the inverse of the enumeration order for every occupation vector is arithmetic over runtime values and is NOT decided.",
+        note="Trusted: python ast, the array-to-scalar normalisation map listed in the rule, sympy's simplification of binomial identities. Clause-level claim only.",
+        ref="DESIGN 3/C06"),
     "C07": dict(
         cat="proof", technique="algebraic normalisation (value numbering in Q(i)[cos,sin,exp,cosh,sinh]) of the closed-form gate blocks read from source + non-commutative matrix-word normal form of the moment update rules; no execution, no solver",
         text="For every built-in gate with closed-form blocks, proves P P^dagger = 1 (passive) and P P^dagger - A A^dagger = 1, P A^T = A P^T (active) as identities in the real parameters, and the documented identities (Fourier, 50:50, Mach-Zehnder, displacement variants) by normal form of the expressions translated from gates.py. It also proves that the Gaussian simulator's update formulas for m, C, G (addressed block, cross blocks, Hermitian/symmetric fills) equal the update derived from a' = P a + A a^dagger in a non-commutative matrix-word algebra. That the index sets select the right blocks for arbitrary mode subsets is not decided.",
@@ -109,7 +113,7 @@ ADDED = {
 }
 
 # properties whose check is built AND clean on the current tree (exit 0); others stay under not_applicable until then
-READY = ["C02", "C03", "C04", "C07", "C08", "C09", "C11", "C12", "C13", "C14", "C15", "C16", "C18", "C19", "C20"]
+READY = ["C02", "C03", "C04", "C06", "C07", "C08", "C09", "C11", "C12", "C13", "C14", "C15", "C16", "C18", "C19", "C20"]
 
 PENDING_REASON = "static check for this property is not built yet in this tree (planned, see DESIGN.md section 3)"
 
